@@ -492,11 +492,11 @@ fn rec_conv(o: &mut Out, r: &mut Rng, draws: u64) {
     for (a, b) in FROM_PAIRS { pairs.push((a, b, "from")); }
     for (a, b) in TRY_PAIRS { pairs.push((a, b, "try")); }
     for d in 0..draws {
-        for (sty, dty, how) in &pairs {
+        for (pi, (sty, dty, how)) in pairs.iter().enumerate() {
             // a slice of the pairs per draw keeps the trace size proportional to `draws`
             let (ssc, n) = sc_of(sty);
             let (dsc, _) = sc_of(dty);
-            if (r.next() % 4) != (d % 4) { continue; }
+            if (pi as u64 + d) % 4 != 0 { continue; }          // every pair is exercised in every fourth draw
             let mut bits: Vec<u64> = (0..n).map(|_| rnd_sc(r, ssc, dsc)).collect();
             if *how == "try" && r.below(2) == 0 {
                 // mostly fitting values with at most one offender, in a random lane
@@ -510,6 +510,24 @@ fn rec_conv(o: &mut Out, r: &mut Rng, draws: u64) {
                 let _ = dw;
             }
             exec_conv(o, sty, dty, how, &bits);
+            // integer -> float `as`: one more event whose lanes sit one unit above / below a rounding tie of the destination
+            // (2^k + 2^(k-p) +- 1): a conversion that rounds twice (through f64, or through a narrower integer) gets these wrong
+            let p: u32 = if dsc == "f32" { 24 } else if dsc == "f64" { 53 } else { 0 };
+            let sw: u32 = if ssc.starts_with('f') { 0 } else if ssc == "usize" { 64 } else { ssc[1..].parse().unwrap() };
+            let top = if ssc.starts_with('i') { sw.saturating_sub(1) } else { sw };
+            if *how == "as" && p != 0 && top > p + 1 {
+                let tb: Vec<u64> = (0..n).map(|i| {
+                    // high magnitudes (where an intermediate f64 or narrower integer has already lost the low bit); the two
+                    // combinations a double rounding gets wrong: tie-to-even goes down but the value is above, or the reverse
+                    let lo = (p + 1).max(top.saturating_sub(9));
+                    let k = lo + r.below((top - lo) as u64) as u32;
+                    let (odd, d) = if i % 2 == 0 { (0i128, 1i128) } else { (1i128 << (k - p + 1), -1i128) };
+                    let v = (1i128 << k) + (1i128 << (k - p)) + odd + d;
+                    let v = if ssc.starts_with('i') && r.below(2) == 0 { -v } else { v };
+                    (v as u64) & if sw == 64 { u64::MAX } else { (1u64 << sw) - 1 }
+                }).collect();
+                exec_conv(o, sty, dty, how, &tb);
+            }
         }
     }
 }
